@@ -190,6 +190,8 @@ func (t *TabCompleteResponse) Decode(c *proto.PacketContext, rd io.Reader) (err 
 			if err != nil {
 				return err
 			}
+			// reset per offer: an offer without a tooltip must not inherit the previous offer's tooltip
+			tooltip = nil
 			if hasTooltip {
 				tooltip, err = chat.ReadComponentHolder(rd, c.Protocol)
 				if err != nil {
